@@ -19,6 +19,7 @@ import Bpp.RangeSound
 import Bpp.Hiding
 import Bpp.Extract
 import Bpp.CountThm
+import Bpp.ScalarField
 /-! # Property theorems
 
 Only the property statements live here, one block per C-id, each about the **executable** model functions of
@@ -188,6 +189,53 @@ theorem C02_knowledge_extract (I : RangeInst F M) (hn : 0 < I.n) (κ : ℕ) (hN 
       (∀ j < I.m, I.V j = v j • I.hb + dot I.t (r j) I.Gb) ∧
       ∀ j < I.m, ∃ k : ℕ, k < 2^I.n ∧ v j = I.p j + (k : F) :=
   range_proof_extract I hn κ hN hI A SY SZ hY0 hYc hZc hT
+
+/-- **C02 over the scalar field of the shipped instantiation.** ℓ = 2²⁵² + 27742317777372353535851937790883648493
+    is prime (Pratt certificate checked by the kernel), so `ZMod ℓ` is a field and everything above applies to it. With
+    promises that are 64-bit numbers and a bit length of at most 64, the extracted values are *integers* below 2⁶⁵
+    (no wrap-around modulo ℓ) with `promise ≤ value` and `value − promise < 2^bits` as integers. -/
+theorem C02_knowledge_extract_scalar_field {M : Type} [AddCommGroup M] [Module (ZMod Model.ell) M]
+    (I : RangeInst (ZMod Model.ell) M) (hn : 0 < I.n) (hn64 : I.n ≤ 64) (κ : ℕ) (hN : I.n * I.m = 2^κ)
+    (hI : Indep (F := ZMod Model.ell) (I.n * I.m) I.t I.G I.H I.hb I.Gb)
+    (pn : ℕ → ℕ) (hpn : ∀ j < I.m, pn j < 2^64) (hp : ∀ j < I.m, I.p j = (pn j : ZMod Model.ell))
+    (A : M) (SY : Finset (ZMod Model.ell)) (SZ : ZMod Model.ell → Finset (ZMod Model.ell))
+    (hY0 : ∀ y ∈ SY, y ≠ 0) (hYc : 3 * (I.n * I.m) + 3 ≤ SY.card) (hZc : ∀ y ∈ SY, 4 * I.m + 3 ≤ (SZ y).card)
+    (hT : ∀ y ∈ SY, ∀ z ∈ SZ y, TreeAcc y I.t I.hb I.Gb κ I.G I.H (Ahat I y z A)) :
+    ∃ (vn : ℕ → ℕ) (r : ℕ → ℕ → ZMod Model.ell),
+      (∀ j < I.m, I.V j = (vn j : ZMod Model.ell) • I.hb + dot I.t (r j) I.Gb) ∧
+      ∀ j < I.m, vn j < 2^65 ∧ 2^65 < Model.ell ∧ pn j ≤ vn j ∧ vn j - pn j < 2^I.n := by
+  obtain ⟨v, r, hV, hk⟩ := C02_knowledge_extract I hn κ hN hI A SY SZ hY0 hYc hZc hT
+  choose! k hk2 hkv using hk
+  refine ⟨fun j => pn j + k j, r, ?_, ?_⟩
+  · intro j hj
+    rw [hV j hj, hkv j hj, hp j hj]; push_cast; rfl
+  · intro j hj
+    have h1 := hpn j hj
+    have h2 : k j < 2^64 := lt_of_lt_of_le (hk2 j hj) (Nat.pow_le_pow_right (by norm_num) hn64)
+    have hell : 2^65 < Model.ell := by rw [ell_eq]; decide +kernel
+    refine ⟨?_, hell, Nat.le_add_right _ _, ?_⟩
+    · show pn j + k j < 2^65
+      calc pn j + k j < 2^64 + 2^64 := Nat.add_lt_add h1 h2
+        _ = 2^65 := by norm_num
+    · show pn j + k j - pn j < 2^I.n
+      rw [Nat.add_sub_cancel_left]; exact hk2 j hj
+
+/-- **The driver's scalar carrier is that field.** On canonical representatives (which every operation returns)
+    `Model.Fl` with its `+ * - ⁻¹` (the inverse by Fermat exponentiation, `0⁻¹ = 0`) is `ZMod ℓ`: the map to the field
+    is injective and commutes with every operation. -/
+theorem C02_driver_field :
+    Nat.Prime Model.ell ∧
+    (∀ a b : Model.Fl, Canon a → Canon b → toZ a = toZ b → a = b) ∧
+    (∀ a b : Model.Fl, toZ (a + b) = toZ a + toZ b ∧ Canon (a + b)) ∧
+    (∀ a b : Model.Fl, toZ (a * b) = toZ a * toZ b ∧ Canon (a * b)) ∧
+    (∀ a b : Model.Fl, Canon b → toZ (a - b) = toZ a - toZ b ∧ Canon (a - b)) ∧
+    (∀ a : Model.Fl, Canon a → toZ (-a) = -toZ a ∧ Canon (-a)) ∧
+    (∀ a : Model.Fl, toZ (a⁻¹) = (toZ a)⁻¹ ∧ Canon (a⁻¹)) ∧
+    (∀ n : ℕ, toZ (n : Model.Fl) = (n : ZMod Model.ell) ∧ Canon (n : Model.Fl)) :=
+  ⟨ell_prime, fun _ _ ha hb h => toZ_inj ha hb h, fun a b => ⟨toZ_add a b, canon_add a b⟩,
+   fun a b => ⟨toZ_mul a b, canon_mul a b⟩, fun a b hb => ⟨toZ_sub a b hb, canon_sub a b⟩,
+   fun a ha => ⟨toZ_neg a ha, canon_neg a⟩, fun a => ⟨toZ_inv a, canon_inv a⟩,
+   fun n => ⟨toZ_natCast n, canon_natCast n⟩⟩
 
 /-- non-vacuity of `C02_knowledge_sound`: a valid witness yields such a tree at every challenge pair -/
 theorem C02_tree_satisfiable (I : RangeInst F M) (hn : 0 < I.n) (κ : ℕ) (hN : I.n * I.m = 2^κ)
@@ -548,6 +596,14 @@ theorem C08_weight_input (ctx : List Event) (x x' : Pub) (hx : x.ok) (hx' : x'.o
     (h : beforeWeight ctx x A lrs a1 b r1 s1 d1 = beforeWeight ctx x' A' lrs' a1' b' r1' s1' d1') :
     x = x' ∧ A = A' ∧ lrs = lrs' ∧ a1 = a1' ∧ b = b' ∧ r1 = r1' ∧ s1 = s1' ∧ d1 = d1' :=
   beforeWeight_inj_data ctx x x' hx hx' A A' lrs lrs' a1 b a1' b' r1 s1 r1' s1' d1 d1' hd h
+
+/-- **C08 (cancellation over any number of members).** With `W r` the vector of the `k` members' factors on run `r`:
+    a fixed non-zero vector of defects annihilated by the factors on *every* run exists if and only if the factor
+    vectors do not span `F^k`. (The correspondence check reads the factor vectors of `k+3` runs from the free-module
+    residual, computes their common kernel and, when it is not trivial, submits the cancelling batch.) -/
+theorem C08_fixed_cancel_iff_not_spanning {F : Type} [Field F] {ι : Type} (k : ℕ) (W : ι → (Fin k → F)) :
+    (∃ E : Fin k → F, E ≠ 0 ∧ ∀ r, ∑ i, W r i * E i = 0) ↔ Submodule.span F (Set.range W) ≠ ⊤ :=
+  fixed_cancel_iff_not_spanning k W
 
 /-! ## C11 Generators / C12 capacity independence (model `Model.Gens`; hashes are parameters) -/
 
